@@ -1,1 +1,199 @@
 import CkbVerif.Model.Tx
+
+/-!
+Helper lemmas for C04 (`Model/Tx.lean`): each stage of `resolve_transaction` succeeds exactly when
+its spec predicate holds; checked capacity sums.
+-/
+namespace CkbVerif.Tx
+open CkbVerif.Gen.Tx
+
+/-- an out point that `resolve_cell` accepts: not spent earlier in the block / by the pool pass, and
+live in the provider -/
+def Usable (seen : List OutPoint) (p : Provider) (op : OutPoint) : Prop :=
+  op ∉ seen ∧ ∃ g, p op = .live g
+
+theorem resolveCell_ok_iff (seen : List OutPoint) (p : Provider) (op : OutPoint) :
+    (∃ g, resolveCell seen p op = .ok g) ↔ Usable seen p op := by
+  unfold resolveCell Usable
+  by_cases hs : op ∈ seen
+  · simp [hs]
+  · simp only [hs, if_false, not_false_eq_true, true_and]
+    cases p op <;> simp
+
+theorem resolveCell_val {seen : List OutPoint} {p : Provider} {op : OutPoint} {g : GroupData}
+    (h : resolveCell seen p op = .ok g) : p op = .live g := by
+  unfold resolveCell at h
+  by_cases hs : op ∈ seen
+  · simp [hs] at h
+  · simp only [hs, if_false] at h
+    cases hp : p op <;> simp [hp] at h
+    subst h; rfl
+
+theorem resolveCell_cases (seen : List OutPoint) (p : Provider) (op : OutPoint) :
+    (∃ g, resolveCell seen p op = .ok g) ∨ (∃ e, resolveCell seen p op = .error e) := by
+  cases h : resolveCell seen p op with
+  | ok g => exact Or.inl ⟨g, rfl⟩
+  | error e => exact Or.inr ⟨e, rfl⟩
+
+theorem resolveInputs_ok_iff (seen : List OutPoint) (p : Provider) (l cur : List OutPoint) :
+    (∃ r, resolveInputs seen p l cur = .ok r) ↔
+      l.Nodup ∧ (∀ x ∈ l, x ∉ cur) ∧ ∀ x ∈ l, Usable seen p x := by
+  induction l generalizing cur with
+  | nil => simp [resolveInputs]
+  | cons op rest ih =>
+    unfold resolveInputs
+    by_cases hc : op ∈ cur
+    · simp [hc]
+    · simp only [hc, if_false]
+      cases hr : resolveCell seen p op with
+      | error e =>
+        have : ¬ Usable seen p op := fun hu => by
+          obtain ⟨g, hg⟩ := (resolveCell_ok_iff seen p op).2 hu
+          rw [hr] at hg; cases hg
+        simp [this]
+      | ok g =>
+        have hu : Usable seen p op := (resolveCell_ok_iff seen p op).1 ⟨g, hr⟩
+        simp only [ih, List.nodup_cons, List.mem_cons, List.mem_append, List.mem_singleton]
+        constructor
+        · rintro ⟨h1, h2, h3⟩
+          refine ⟨⟨fun hm => (h2 op hm) (Or.inr rfl), h1⟩, ?_, ?_⟩
+          · intro x hx
+            rcases hx with rfl | hx
+            · exact hc
+            · exact fun hxc => h2 x hx (Or.inl hxc)
+          · intro x hx
+            rcases hx with rfl | hx
+            · exact hu
+            · exact h3 x hx
+        · rintro ⟨⟨h0, h1⟩, h2, h3⟩
+          refine ⟨h1, ?_, fun x hx => h3 x (Or.inr hx)⟩
+          intro x hx hxc
+          rcases hxc with hxc | rfl
+          · exact h2 x (Or.inr hx) hxc
+          · exact h0 hx
+
+theorem resolveInputs_val {seen : List OutPoint} {p : Provider} {l cur r : List OutPoint}
+    (h : resolveInputs seen p l cur = .ok r) : r = cur ++ l := by
+  induction l generalizing cur with
+  | nil => simp [resolveInputs] at h; simp [h]
+  | cons op rest ih =>
+    unfold resolveInputs at h
+    by_cases hc : op ∈ cur
+    · simp [hc] at h
+    · simp only [hc, if_false] at h
+      cases hr : resolveCell seen p op with
+      | error e => simp [hr] at h
+      | ok g =>
+        simp only [hr] at h
+        have := ih h
+        simp [this]
+
+theorem resolveMembers_ok_iff (seen : List OutPoint) (p : Provider) (ms : List OutPoint) :
+    resolveMembers seen p ms = .ok () ↔ ∀ m ∈ ms, Usable seen p m := by
+  induction ms with
+  | nil => simp [resolveMembers]
+  | cons m rest ih =>
+    unfold resolveMembers
+    cases hr : resolveCell seen p m with
+    | error e =>
+      have : ¬ Usable seen p m := fun hu => by
+        obtain ⟨g, hg⟩ := (resolveCell_ok_iff seen p m).2 hu
+        rw [hr] at hg; cases hg
+      simp [this]
+    | ok g =>
+      have hu : Usable seen p m := (resolveCell_ok_iff seen p m).1 ⟨g, hr⟩
+      simp [ih, hu]
+
+/-- slots a dependency consumes: 1 for a code dep, the number of members for a dep group -/
+def depCost (p : Provider) (d : Dep) : Nat :=
+  if d.isGroup then (match p d.op with | .live (some ms) => ms.length | _ => 0) else 1
+
+/-- a dependency that resolves: the cell is usable; for a dep group its data is a non-empty out-point
+vector and every member is usable -/
+def DepOk (seen : List OutPoint) (p : Provider) (d : Dep) : Prop :=
+  Usable seen p d.op ∧ (d.isGroup = true → ∃ ms, p d.op = .live (some ms) ∧ ∀ m ∈ ms, Usable seen p m)
+
+theorem resolveDeps_ok_iff (seen : List OutPoint) (p : Provider) (ds : List Dep) (slots : Nat)
+    (cds gs : List OutPoint) :
+    (∃ r, resolveDeps seen p ds slots cds gs = .ok r) ↔
+      (∀ d ∈ ds, DepOk seen p d) ∧ (ds.map (depCost p)).sum ≤ slots := by
+  induction ds generalizing slots cds gs with
+  | nil => simp [resolveDeps]
+  | cons d rest ih =>
+    unfold resolveDeps
+    by_cases hg : d.isGroup = true
+    · simp only [hg, if_true]
+      cases hr : resolveCell seen p d.op with
+      | error e =>
+        have : ¬ Usable seen p d.op := fun hu => by
+          obtain ⟨g, hg⟩ := (resolveCell_ok_iff seen p d.op).2 hu
+          rw [hr] at hg; cases hg
+        simp [DepOk, this]
+      | ok g =>
+        have hu : Usable seen p d.op := (resolveCell_ok_iff seen p d.op).1 ⟨g, hr⟩
+        have hp := resolveCell_val hr
+        cases g with
+        | none =>
+          simp only [List.mem_cons, forall_eq_or_imp, DepOk, hg, hp]
+          simp
+        | some ms =>
+          simp only
+          by_cases hs : slots < ms.length
+          · simp only [hs, if_true, List.map_cons, List.sum_cons, depCost, hg, hp]
+            constructor
+            · rintro ⟨r, hr⟩; cases hr
+            · rintro ⟨_, h2⟩; omega
+          · simp only [hs, if_false]
+            cases hm : resolveMembers seen p ms with
+            | error e =>
+              have : ¬ ∀ m ∈ ms, Usable seen p m := fun h => by
+                rw [(resolveMembers_ok_iff seen p ms).2 h] at hm; cases hm
+              simp only [List.mem_cons, forall_eq_or_imp, DepOk, hg, hp]
+              constructor
+              · rintro ⟨r, hr⟩; cases hr
+              · rintro ⟨⟨⟨_, h1⟩, _⟩, _⟩
+                obtain ⟨ms', e1, e2⟩ := h1 rfl
+                cases e1; exact absurd e2 this
+            | ok u =>
+              have hall := (resolveMembers_ok_iff seen p ms).1 (by cases u; exact hm)
+              simp only [ih, List.mem_cons, forall_eq_or_imp, List.map_cons, List.sum_cons]
+              have hc : depCost p d = ms.length := by simp [depCost, hg, hp]
+              have hd : DepOk seen p d := ⟨hu, fun _ => ⟨ms, hp, hall⟩⟩
+              rw [hc]
+              constructor
+              · rintro ⟨h1, h2⟩; exact ⟨⟨hd, h1⟩, by omega⟩
+              · rintro ⟨⟨_, h1⟩, h2⟩; exact ⟨h1, by omega⟩
+    · have hg' : d.isGroup = false := by cases h : d.isGroup <;> simp_all
+      have hc : depCost p d = 1 := by simp [depCost, hg']
+      simp only [hg', Bool.false_eq_true, if_false, List.mem_cons, forall_eq_or_imp, List.map_cons, List.sum_cons, hc]
+      by_cases hs : slots < 1
+      · simp only [hs, if_true]
+        constructor
+        · rintro ⟨r, hr⟩; cases hr
+        · rintro ⟨_, h2⟩; omega
+      · simp only [hs, if_false]
+        cases hr : resolveCell seen p d.op with
+        | error e =>
+          have : ¬ Usable seen p d.op := fun hu => by
+            obtain ⟨g, hg⟩ := (resolveCell_ok_iff seen p d.op).2 hu
+            rw [hr] at hg; cases hg
+          simp [DepOk, this]
+        | ok g =>
+          have hu : Usable seen p d.op := (resolveCell_ok_iff seen p d.op).1 ⟨g, hr⟩
+          have hd : DepOk seen p d := ⟨hu, fun h => by rw [hg'] at h; cases h⟩
+          simp only [ih]
+          constructor
+          · rintro ⟨h1, h2⟩; exact ⟨⟨hd, h1⟩, by omega⟩
+          · rintro ⟨⟨_, h1⟩, h2⟩; exact ⟨h1, by omega⟩
+
+theorem checkHeaders_ok_iff (valid : Nat → Bool) (hs : List Nat) :
+    checkHeaders valid hs = .ok () ↔ ∀ h ∈ hs, valid h = true := by
+  induction hs with
+  | nil => simp [checkHeaders]
+  | cons h rest ih =>
+    unfold checkHeaders
+    by_cases hv : valid h = true
+    · simp [hv, ih]
+    · simp [hv]
+
+end CkbVerif.Tx
